@@ -337,10 +337,44 @@ structure Cfg where
   /-- a cache hit of a transformer returns the outputs *panel* (`DotDict`) instead of the object the
   first run returned (pinned: `true`) -/
   cachedPanel : Bool
+  /-- `inputs_to_dict_factory` names the class after `hash(specification)` and `classfactory` keeps one class
+  per NAME: a second specification with the same hash gets the class of the first (pinned: `true`) -/
+  dictByHash : Bool := true
+  /-- `dataclass_node_factory` names the class after `dataclass.__name__`: a second dataclass of the same
+  name gets the node class of the first (pinned: `true`) -/
+  dcByName : Bool := true
   deriving Repr, DecidableEq
 
-def Cfg.pinned : Cfg := { recast := true, cachedPanel := true }
-def Cfg.repaired : Cfg := { recast := false, cachedPanel := false }
+def Cfg.pinned : Cfg := { recast := true, cachedPanel := true, dictByHash := true, dcByName := true }
+def Cfg.repaired : Cfg := { recast := false, cachedPanel := false, dictByHash := false, dcByName := false }
+
+/-! ## `classfactory`: the registry of the classes made so far
+
+`pyiron_snippets.factory.classfactory` calls the factory function for `(name, bases, dict)` and then hands
+back `class_registry[name]` if that name was made before.  `ident` stands for the defining object (the
+dataclass; the input specification); `name` is what the factory derives from it (`dataclass.__name__`;
+`"InputsToDict" + str(hash(specification))`) — two different defining objects can have the same name. -/
+
+structure RegEntry (α : Type) where
+  name : String
+  ident : Nat
+  cls : α
+
+/-- the class handed out for the defining object `ident` named `name`, `fresh` being the class the factory
+would build for it; `byName` = look the registry up by name alone (pinned), else by name and defining object -/
+def classFor {α : Type} (byName : Bool) (reg : List (RegEntry α)) (name : String) (ident : Nat) (fresh : α) :
+    α × List (RegEntry α) :=
+  match reg.find? (fun e => e.name == name && (byName || e.ident == ident)) with
+  | some e => (e.cls, reg)
+  | none => (fresh, ⟨name, ident, fresh⟩ :: reg)
+
+/-- a whole session: classes requested one after the other (`mk` = what the factory builds for a defining
+object); the classes handed out, in order -/
+def classesFor {α : Type} (byName : Bool) (mk : Nat → α) : List (RegEntry α) → List (String × Nat) → List α
+  | _, [] => []
+  | reg, (name, ident) :: rest =>
+    let r := classFor byName reg name ident (mk ident)
+    r.1 :: classesFor byName mk r.2 rest
 
 /-- `Node._before_run` on a cache hit (same inputs, last run succeeded): `_outputs_to_run_return()`.
 `Function` overrides it consistently with the first run; the transformers inherit `Node`'s, which returns
